@@ -92,6 +92,14 @@ def directed_inputs(tier):
                 if (n, k) in ((16, 5), (40, 5), (24, 8)) or tier != 'quick':
                     v6 = [0x60, 0, 0, 0, len(t) >> 8, len(t) & 255, 6, 64] + [0xfd] + [0] * 14 + [1] + [0xfd] + [0] * 14 + [2]
                     out.append({'bytes': eth + [0x86, 0xdd] + v6 + t, 'plan': [['eth', 0, 0], ['ether', 0x86dd, 14], ['ip', 0, 14], ['ipv6', 0, 14]]})
+    # RFC 2675 jumbo payload option behind a zero payload length, announcing a little less / exactly / a little more than what follows the
+    # IPv6 header (the crate documents that it does not interpret the option: the payload reaches to the end of the slice)
+    v6h = [0x60, 0, 0, 0, 0, 0, 0, 64] + [0xfd] + [0] * 14 + [1] + [0xfd] + [0] * 14 + [2]
+    body = [0, 53, 0x30, 0x39, 0, 20, 0, 0] + list(range(1, 13))
+    for k in (-9, -8, -1, 0, 1, 7, 8, 39, 40, 41, 48, 65508):
+        n = 8 + len(body) + k
+        hbh = [17, 0, 0xc2, 4, (n >> 24) & 255, (n >> 16) & 255, (n >> 8) & 255, n & 255]
+        out.append({'bytes': eth + [0x86, 0xdd] + v6h + hbh + body, 'plan': [['eth', 0, 0], ['ether', 0x86dd, 14], ['ip', 0, 14], ['ipv6', 0, 14]]})
     # Linux SLL: every ARP hardware id the crate has a name for (5 of them are documented as supported) and the neighbours of the supported
     # ones, with an IPv4 / UDP packet behind the header; every packet type 0..=8
     named = list(range(0, 39)) + [256, 257, 258, 259, 260, 264, 270, 271, 272, 280, 512, 513, 516, 517, 518, 519] + list(range(768, 788)) + list(range(800, 806)) + list(range(820, 827))
